@@ -356,8 +356,31 @@ def _lazy_part(chk, b):
   chk.add_samples([h for h in hs if h['expr']['t'] == 'call' and h['expr']['c']][1:3])
 
 
+def mixed_construction(chk):
+  """The same cached call written both ways - LazyFn.new(f, args) with the plain callable and trace(f)(args) - in one
+  process: LazyEval.tla's cache key is structural, both spellings evaluate to the eager value, in either order."""
+  from ml_metrics._src.chainables import lazy_fns
+  from harness import lazylib
+  for order in ('new-then-trace', 'trace-then-new'):
+    lazy_fns.clear_cache()
+    a = lambda: lazy_fns.LazyFn.new(lazylib.inc, args=(1,), cache_result=True)
+    b = lambda: lazy_fns.trace(lazylib.inc)(1, cache_result_=True)
+    seq = (a, b) if order == 'new-then-trace' else (b, a)
+    ctx = dict(kind='lazy-mixed-construction', order=order)
+    try:
+      vals = [lazy_fns.maybe_make(mk()) for mk in seq] + [lazy_fns.maybe_make(lazy_fns.pickler.dumps(mk())) for mk in seq]
+    except Exception as e:  # pylint: disable=broad-exception-caught
+      chk.violation(f'lazy:mixed-construction:exception:{type(e).__name__}', f'[{order}] {e!r}; the eager value is 2', ctx)
+      continue
+    chk.replayed()
+    if vals != [2, 2, 2, 2]:
+      chk.violation('lazy:mixed-construction:value', f'[{order}] values {vals}, eager 2', ctx)
+  lazy_fns.clear_cache()
+
+
 def body(chk):
   b = _bounds(chk.tier)
+  mixed_construction(chk)
   chk.coverage['bounds'] = {k: str(v) for k, v in b.items()}
   _lru_part(chk, b)
   _lazy_part(chk, b)
